@@ -91,8 +91,86 @@ Fixpoint crun_trace (st : cstate) (evs : list cev) (i : N) : cstate * option N :
   | e :: r => match cstep st e with Some st' => crun_trace st' r (i + 1) | None => (st, Some i) end
   end.
 
+
+(* ---- submission order: asyncio.Lock is FIFO, and send_frame asks for the lock BEFORE it returns control -----------
+   FEnq t o : send_frame(o) was called for a compressed operation and task t (the sender itself on the in-loop path,
+              the eagerly started shielded task on the executor path) queued for _send_lock — one event, because the
+              lock request happens inside the call, before any other send_frame can be called;
+   FEv e    : the events above; EAcq t is only enabled for the head of the queue (fair lock), EComp t o only for the
+              operation t queued with, ERel t only once that operation's frame is written.
+   A waiter that is cancelled before it gets the lock leaves the queue as if it had never been submitted (the harness
+   drops its FEnq). *)
+Inductive fev := FEnq (t : N) (o : sop) | FEv (e : cev).
+
+Definition sop_eqb (a b : sop) : bool :=
+  match a, b with
+  | Send o1 p1 v1 r1, Send o2 p2 v2 r2 => (o1 =? o2) && list_eqb p1 p2 && (v1 =? v2) && (r1 =? r2)
+  | Close c1 p1 r1, Close c2 p2 r2 => (c1 =? c2) && list_eqb p1 p2 && (r1 =? r2)
+  | _, _ => false
+  end.
+
+Definition is_comp_op (o : sop) : bool := is_send o && negb (op_plainb o).
+
+Record fstate := mkf {
+  f_c : cstate;
+  f_q : list (N * sop);        (* waiters of _send_lock, head first, with the operation they will send *)
+  f_cur : option sop;          (* operation of the lock holder, until its frame is written *)
+  f_sub : list sop             (* compressed operations in the order send_frame was called *)
+}.
+
+Definition finit_state : fstate := mkf cinit_state [] None [].
+
+Definition with_c (st : fstate) (cur : option sop) (r : option cstate) : option fstate :=
+  match r with Some c' => Some (mkf c' (f_q st) cur (f_sub st)) | None => None end.
+
+Definition fstep (st : fstate) (e : fev) : option fstate :=
+  match e with
+  | FEnq t o =>
+    if is_comp_op o then Some (mkf (f_c st) (f_q st ++ [(t, o)]) (f_cur st) (f_sub st ++ [o])) else None
+  | FEv (EAcq t) =>
+    match f_q st, f_cur st with
+    | (t', o) :: q', None =>
+      if t' =? t then
+        match cstep (f_c st) (EAcq t) with
+        | Some c' => Some (mkf c' q' (Some o) (f_sub st))
+        | None => None
+        end
+      else None
+    | _, _ => None
+    end
+  | FEv (EComp t o) =>
+    match f_cur st with
+    | Some o' => if sop_eqb o o' then with_c st (f_cur st) (cstep (f_c st) (EComp t o)) else None
+    | None => None
+    end
+  | FEv (EWrite t) => with_c st None (cstep (f_c st) (EWrite t))
+  | FEv (ERel t) =>
+    match f_cur st with
+    | None => with_c st None (cstep (f_c st) (ERel t))
+    | Some _ => None
+    end
+  | FEv (EPlain o) => with_c st (f_cur st) (cstep (f_c st) (EPlain o))
+  end.
+
+Fixpoint frun (st : fstate) (evs : list fev) : option fstate :=
+  match evs with
+  | [] => Some st
+  | e :: r => match fstep st e with Some st' => frun st' r | None => None end
+  end.
+
+Fixpoint frun_trace (st : fstate) (evs : list fev) (i : N) : fstate * option N :=
+  match evs with
+  | [] => (st, None)
+  | e :: r => match fstep st e with Some st' => frun_trace st' r (i + 1) | None => (st, Some i) end
+  end.
+
+(* compressed operations on the wire, in wire order *)
+Definition comp_ops (order : list (sop * N)) : list sop := filter is_comp_op (map fst order).
+
 End Send.
 
 Arguments mkc {Cc}. Arguments c_lock {Cc}. Arguments c_w {Cc}. Arguments c_wire {Cc}. Arguments c_order {Cc}.
+Arguments mkf {Cc}. Arguments f_c {Cc}. Arguments f_q {Cc}. Arguments f_cur {Cc}. Arguments f_sub {Cc}.
 
 Definition toy_crun_trace (wc : wcfg) (evs : list cev) := crun_trace toyc toy_cinit toy_comp wc (cinit_state toyc) evs 0.
+Definition toy_frun_trace (wc : wcfg) (evs : list fev) := frun_trace toyc toy_cinit toy_comp wc (finit_state toyc) evs 0.
